@@ -4,7 +4,7 @@
     specification (Spec/Ps35.v); [write_dataset], [enc_prim_element], [enc_prim],
     [calc_byte_len] are the models of the dicom-rs code. *)
 From DicomV Require Import Base.Endian Model.Vr Model.Header Model.Prim Model.Dataset Model.Writer Spec.Ps35
-  Proofs.HeaderP Proofs.PrimP Proofs.WriterP Proofs.ValidP Proofs.FlatP Proofs.NestedP Proofs.ValidTreeP Proofs.CountP.
+  Proofs.HeaderP Proofs.PrimP Proofs.WriterP Proofs.ValidP Proofs.FlatP Proofs.NestedP Proofs.ValidTreeP Proofs.CountP Proofs.NestedGP Proofs.ValidTreeGP.
 Open Scope N_scope.
 
 (** Every byte count returned by [BasicEncode::encode_primitive] equals the
@@ -143,8 +143,42 @@ Proof.
     repeat (split || constructor); cbn; try reflexivity; try discriminate; try lia; try (intros; discriminate).
 Qed.
 
-(** Full statement, kept visible. Proved above: flat data sets (both strategies) and nested data sets
-    under the default strategy. NOT proved: the NoChange strategy with recorded defined lengths. *)
+(** BOTH strategies, defined lengths included: for nested data sets of any depth
+    (and encapsulated pixel data) whose defined written lengths [wl nochange l]
+    (the recorded lengths under NoChange; none under SetUndefined) are even and
+    equal the actual length of the content they announce, every stream the
+    writer produces is accepted by [ps35_valid]: defined-length items and
+    sequences end exactly where their length says, undefined-length ones are
+    closed by the matching delimiters (Proofs/NestedGP.v + ValidTreeGP.v). *)
+Theorem C04_valid_nested_both : forall c is_sq nochange es b,
+  Forall (vable_g c is_sq nochange) es ->
+  write_dataset c nochange false es = Ok b -> ps35_valid c is_sq b = true.
+Proof. exact write_tree_valid_g. Qed.
+
+Example C04_defined_nonvacuous :
+  Forall (vable_g ELE (fun _ => false) true)
+    [ ESeq (8, 4416) SQ 18 [(10, [EPrim (40, 16) US 2 (PU16 [512])])]; ESeq (64, 629) SQ 0 [] ]
+  /\ ps35_valid ELE (fun _ => false)
+       [8; 0; 64; 17; 83; 81; 0; 0; 18; 0; 0; 0; 254; 255; 0; 224; 10; 0; 0; 0; 40; 0; 16; 0; 85; 83; 2; 0; 0; 2;
+        64; 0; 117; 2; 83; 81; 0; 0; 0; 0; 0; 0] = true.
+Proof.
+  split; [|vm_compute; reflexivity].
+  constructor; [|constructor; [|constructor]].
+  - constructor; try (unfold wf_tag; cbn; lia); try discriminate.
+    + right. cbn. split; [lia | reflexivity].
+    + intros f body E. destruct f as [|f]; [discriminate E|]. right. vm_compute in E. inversion E. reflexivity.
+    + constructor; [|constructor]. cbn [fst snd]. split; [right; cbn; split; [lia | reflexivity]|].
+      split; [intros f body E; destruct f as [|f]; [discriminate E|]; right; vm_compute in E; inversion E; reflexivity|].
+      constructor; [|constructor]. constructor.
+      unfold elem_ok, plain, wf_tag. cbn. repeat split; try reflexivity; try lia; try discriminate; intros; discriminate.
+  - constructor; try (unfold wf_tag; cbn; lia); try discriminate.
+    + right. cbn. split; [lia | reflexivity].
+    + intros f body E. right. vm_compute in E. inversion E. reflexivity.
+    + constructor.
+Qed.
+
+(** Full statement, kept visible. C04_valid_nested_both proves it for [wf_dataset] = [vable_g] (both strategies,
+    charset flag off); the charset-changed flag with nesting is covered by the correspondence only. *)
 Definition C04_valid_full_statement : Prop :=
   forall c nochange inv is_sq (wf_dataset : codec -> bool -> list elem -> Prop) es b,
     wf_dataset c nochange es -> write_dataset c nochange inv es = Ok b -> ps35_valid c is_sq b = true.
@@ -161,6 +195,9 @@ Example C04_nonvacuous :
 Proof. vm_compute. repeat split. Qed.
 
 Check C04_counts : forall c p, snd (enc_prim c p) = blen (fst (enc_prim c p)).
+Check C04_valid_nested_both : forall c is_sq nochange es b,
+  Forall (vable_g c is_sq nochange) es ->
+  write_dataset c nochange false es = Ok b -> ps35_valid c is_sq b = true.
 Check C04_valid_nested : forall c is_sq es b,
   Forall (vable c is_sq) es -> write_dataset c false false es = Ok b -> ps35_valid c is_sq b = true.
 Check C04_valid_flat : forall c nochange inv is_sq es b,
@@ -181,6 +218,7 @@ Print Assumptions C04_valid_flat.
 Print Assumptions C04_spec_valid_flat.
 Print Assumptions C04_write_nested_partial.
 Print Assumptions C04_valid_nested.
+Print Assumptions C04_valid_nested_both.
 Print Assumptions C04_bytes_written.
 Print Assumptions C04_bytes_written_token.
 Print Assumptions C04_bytes_written_element.
